@@ -301,6 +301,12 @@ def gen_value(ty, rng):
         hi = ty[3] if ty[3] is not None else lo + 1000
         if lo > hi:
             return NotImplemented   # empty range: the type accepts nothing
+        if rng.random() < 0.4:
+            # integers that are not exact doubles / machine-word boundaries
+            big = [z for z in (2**53 + 1, 2**53 - 1, -(2**53) - 1, 2**63 - 1, 2**63 + 1, 2**64 + 1, 10**18 + 1, 10**22 + 1,
+                               65535, 65534) if lo <= z and (ty[3] is None or z <= ty[3])]
+            if big:
+                return rng.choice(big)
         return rng.randint(lo, max(lo, min(hi, lo + 100000)))
     if k == "Boolean":
         return rng.random() < 0.5
@@ -676,6 +682,15 @@ def format_stage(chk, scratch, schemas, base):
             c = chk.replay_case
             ss = schemas if c.get("schemas") == "bundled" else [c12.ty_from_json(s) for s in c["schemas"]]
             todo = [(ss, c["raw"], "replay")]
+        # MapConfigSchema sections (loglevels / logcolors) with valid and invalid entries mixed, in
+        # varying SOURCE orders (format writes them sorted, so the reload meets them in another order)
+        for _ in range(max(20, n // 8)):
+            names = rng.sample(["alpha", "mopidy", "mopidy.http", "pykka", "zeta", "m3u", "beta.x"], rng.randint(2, 5))
+            lv = {k: rng.choice(["debug", "info", "warning", "bogus", "trace", "", "10", "error"]) for k in names}
+            lc = {k: rng.choice(["red", "blue", "orange", "RED", "", "green"]) for k in rng.sample(names, rng.randint(1, len(names)))}
+            raw = {s_: dict(kv) for s_, kv in base.items()}
+            raw["loglevels"], raw["logcolors"] = lv, lc
+            todo.append((schemas, raw, "map-mix"))
         # value-first configs: the values are built directly, not obtained by loading text
         for _ in range(n // 2):
             ss, cfg = gen_direct_config(rng)
@@ -755,8 +770,9 @@ def format_stage(chk, scratch, schemas, base):
                 if scope is None and any(k != k.lower() or k == "" or k != k.strip() or any(c in k for c in "=:#;[\n\r")
                                          for kv in cfg.values() for k in kv):
                     scope = "key-name-not-ini-safe"   # only reachable through command-line overrides
+                # keys that are in error are not compared below, so they do not decide the scope either
                 scopes = [roundtrip_scope(key_type(ss, sec, k), v) for sec, kv in cfg.items() for k, v in kv.items()
-                          if key_type(ss, sec, k) is not None]
+                          if key_type(ss, sec, k) is not None and k not in errs.get(sec, {})]
                 scope = scope or next((x for x in scopes if x), None)
                 chk.dist("format:roundtrip-scope=" + (scope or "in-scope"))
                 if scope is None:
